@@ -172,7 +172,9 @@ CLAIMED["C10"] = {
             "and tested before Ok), compound assignment and ?= (root_ident().is_const() before the result type is computed, for identifier, index "
             "and field targets), named loop counter, import (name already mapped => Err), class (name in scope => Err); (3) module names and class "
             "names are created const (one known finding: names bound by `import a from m` are rebindable copies, which the repository's own test "
-            "requires). Does not decide the scoping rules that say which bindings a lookup sees.",
+            "requires); (4) the read-only flag travels with an identifier (every Ident built from another takes read_only from it); (5) parameter names are "
+            "registered in a scope only when the caller asked for it and only after the function's own scope was pushed (a signature read ahead of time "
+            "must not shadow outer names). Does not decide the remaining scoping rules that say which bindings a lookup sees.",
     "technique": "static analysis: instruction-literal/operand-type enumeration, conditional guarded-by with correlated-test pruning on rustc MIR, pass-through of the const flag",
     "design_ref": "DESIGN.md §5 C10",
 }
